@@ -140,11 +140,24 @@ class Grant(VC):
                 en = expired(ctx, exp_in.fields[0], env)
                 ob.require("C08.new_expiry_not_in_past", znot(en) if en is not None else False)
                 if v1 is not None: ob.require("C08.new_expiry_installed", zimplies(p1, spec_eq(ctx, v1.get("expires"), exp_in.fields[0])))
-            elif exp_in is not None and self.variant == "IncreaseAllowance" and v1 is not None:
-                e1 = expired(ctx, v1.get("expires"), env)
-                ob.require("C08.resulting_allowance_not_already_expired", znot(e1) if e1 is not None else False)
+            elif exp_in is not None and v1 is not None:
+                if self.variant == "IncreaseAllowance":
+                    e1 = expired(ctx, v1.get("expires"), env)
+                    ob.require("C08.resulting_allowance_not_already_expired", znot(e1) if e1 is not None else False)
+                # a call that names no expiry never moves the deadline of a live allowance (a top-up must not make it permanent) ...
+                if v0 is not None and live is not False:
+                    ob.require("C08.no_expiry_given_keeps_the_deadline", zimplies(zand(live, p1), spec_eq(ctx, v1.get("expires"), v0.get("expires"))))
+                # ... and a grant that starts afresh without one never expires
+                if self.variant == "IncreaseAllowance":
+                    fresh_ok = is_never(ctx, v1.get("expires"))
+                    ob.require("C08.fresh_grant_without_expiry_never_expires", zimplies(znot(live) if live is not False else True, fresh_ok))
         ob.witness("granted")
         ob.twin("twin.grant_calls_change_nothing", zand(all(spec_eq(ctx, s0[k][1], s1[k][1]) is True for k in s0 if k in s1) and len(s0) == len(s1), *[zeq(s0[k][0], s1[k][0]) for k in s0 if k in s1]))
+
+
+def is_never(ctx, exp):
+    e = lazy_forced(ctx, exp)
+    return e is not None and e.variant == "Never"
 
 
 class Ghost(VC):
